@@ -14,6 +14,7 @@ import (
 	"strconv"
 	"strings"
 	"sync"
+	"sync/atomic"
 	"testing"
 	"testing/synctest"
 	"time"
@@ -49,7 +50,7 @@ type hScenario struct {
 	ReqCtx     string   `json:"reqCtx"`  // background todo cancellable values deadline
 	ExecCtx    string   `json:"execCtx"` // none values
 	Policies   []string `json:"policies"`
-	Via        string   `json:"via"` // roundtripper | request
+	Via        string   `json:"via"`  // roundtripper | request
 	Grpc       string   `json:"grpc"` // "" | client | server
 	Method     string   `json:"method"`
 }
@@ -247,7 +248,9 @@ func runHTTPScenario(t *testing.T, sc hScenario) (lines []M, problem string) {
 			case "breaker":
 				ps = append(ps, circuitbreaker.Builder[*http.Response]().WithFailureThreshold(50).Build())
 			case "fallback":
-				ps = append(ps, fallback.BuilderWithFunc(func(e failsafe.Execution[*http.Response]) (*http.Response, error) { return e.LastResult(), e.LastError() }).
+				ps = append(ps, fallback.BuilderWithFunc(func(e failsafe.Execution[*http.Response]) (*http.Response, error) {
+					return e.LastResult(), e.LastError()
+				}).
 					HandleIf(func(r *http.Response, err error) bool { return false }).Build())
 			}
 		}
@@ -366,7 +369,7 @@ func bodyWrap(r io.Reader) io.ReadCloser {
 	case *bytes.Reader:
 		return readerCloser{v}
 	case seekBody:
-		return seekCloser{v}
+		return seekCloser{v, &atomic.Bool{}}
 	case plainStream:
 		return streamCloser{v}
 	}
@@ -381,9 +384,27 @@ type readerCloser struct{ *bytes.Reader }
 
 func (readerCloser) Close() error { return nil }
 
-type seekCloser struct{ seekBody }
+// seekCloser behaves like an *os.File upload: seekable, and unusable once closed
+type seekCloser struct {
+	seekBody
+	closed *atomic.Bool
+}
 
-func (seekCloser) Close() error { return nil }
+var errBodyClosed = errors.New("seek/read: file already closed")
+
+func (s seekCloser) Close() error { s.closed.Store(true); return nil }
+func (s seekCloser) Read(p []byte) (int, error) {
+	if s.closed.Load() {
+		return 0, errBodyClosed
+	}
+	return s.seekBody.Read(p)
+}
+func (s seekCloser) Seek(off int64, whence int) (int64, error) {
+	if s.closed.Load() {
+		return 0, errBodyClosed
+	}
+	return s.seekBody.Seek(off, whence)
+}
 
 type streamCloser struct{ plainStream }
 
